@@ -67,9 +67,33 @@ func (c Const) Validate(v bytes.Bytes) {
 		}
 	}
 
+	if sameNumber(v, c.nodeValue) {
+		return
+	}
+
 	if v.String() != c.nodeValue.String() {
 		panic(errors.Format(errors.ErrInvalidConst, c.nodeValue.String()))
 	}
+}
+
+// sameNumber tells whether a and b are JSON numbers of the same kind (integer
+// or float) and of the same value, however they are written (1.5, 1.50, 15e-1).
+func sameNumber(a, b bytes.Bytes) bool {
+	isNumeral := func(x bytes.Bytes) bool {
+		return len(x) != 0 && (x[0] == '-' || ('0' <= x[0] && x[0] <= '9'))
+	}
+	if !isNumeral(a) || !isNumeral(b) {
+		return false
+	}
+	na, err := json.NewNumber(a)
+	if err != nil {
+		return false
+	}
+	nb, err := json.NewNumber(b)
+	if err != nil {
+		return false
+	}
+	return json.Guess(a).IsInteger() == json.Guess(b).IsInteger() && na.Cmp(nb) == 0
 }
 
 func (c Const) ASTNode() jschema.RuleASTNode {
